@@ -846,3 +846,14 @@ package nutsdb
 //@   ensures pendingOK(tx)
 //@   modifies[C05,C08,C12] tx.pendingWrites, elems(tx.pendingWrites)
 //@   safety[C20] panics
+
+//@ func Tx.LRem
+//@   requires txOK(tx)
+//@   ensures[C12,C20] old(tx.db) == nil ==> err == ErrTxClosed
+//@   ensures[C12] err != nil ==> samePending(tx)
+//@   ensures[C05,C20] err == nil ==> -len(tx.db.ListIdx[bucket].Items[string(key)]) <= count && count <= len(tx.db.ListIdx[bucket].Items[string(key)])
+//@   ensures[C05] err == nil ==> appended(tx, 1) && tx.pendingWrites[old(len(tx.pendingWrites))].Meta.Flag == DataLRemFlag && tx.pendingWrites[old(len(tx.pendingWrites))].Key == key &&
+//@        string(tx.pendingWrites[old(len(tx.pendingWrites))].Value) == concat(concat(itoa(count), SeparatorForListKey), string(value))
+//@   ensures pendingOK(tx)
+//@   modifies[C05,C08,C12] tx.pendingWrites, elems(tx.pendingWrites)
+//@   safety[C05,C20] panics overflow
